@@ -37,6 +37,7 @@ TARGETS = {
     "sig": (["vfz.c", "vk.c", "vsched.c", "t_sig.c"], WRAPS_VK + WRAPS_SCHED, "asan", []),
     "ino": (["vfz.c", "vk.c", "vlock.c", "t_ino.c"], WRAPS_VK + WRAPS_LOCK, "asan", []),
     "hyg": (["vfz.c", "t_hyg.c"], [], "asan", []),
+    "race": (["vfz.c", "t_race.c"], [], "tsan", []),
     "popen": (["vfz.c", "vk.c", "vlock.c", "t_popen.c"], WRAPS_VK + WRAPS_LOCK + ["fork", "wait4", "kill"], "asan", []),
     "wait": (["vfz.c", "vk.c", "vsched.c", "t_wait.c"], WRAPS_VK + WRAPS_SCHED + ["fork", "wait4", "kill"], "asan", []),
 }
@@ -94,6 +95,13 @@ def build(target, quiet=False):
     os.makedirs(bdir, exist_ok=True)
     _gc_builds(keep=bdir)
     inc = prepare_gen_headers(bdir)
+    if san == "tsan":
+        # ThreadSanitizer's model of pthread spin locks taken inside signal handlers is unreliable (it reports "double lock" on the
+        # unchanged tree and then stops ordering through that lock).  The library's other, equally supported configuration -- the
+        # pipe-based spin lock of spinlock.h, used where pthread_spin_trylock is missing -- is modelled exactly (fd release/acquire).
+        cfgp = os.path.join(inc, "config.h")
+        cfg_txt = open(cfgp).read().replace("#define HAVE_PTHREAD_SPIN_TRYLOCK 1", "/* #undef HAVE_PTHREAD_SPIN_TRYLOCK (tsan build) */")
+        open(cfgp, "w").write(cfg_txt)
     incs = ["-I" + inc, "-I" + os.path.join(REPO, "src"), "-I" + os.path.join(REPO, "src", "include"), "-I" + HARNESS]
     cc = ["clang"] + CFLAGS + SAN[san] + incs
     jobs = []
@@ -156,7 +164,8 @@ ENV_BASE["ASAN_SYMBOLIZER_PATH"] = shutil.which("llvm-symbolizer") or shutil.whi
 
 
 # per-target environment overrides (LeakSanitizer is needed by the hygiene target only)
-TARGET_ENV = {"hyg": {"ASAN_OPTIONS": ENV_BASE["ASAN_OPTIONS"].replace("detect_leaks=0", "detect_leaks=1:leak_check_at_exit=0")}}
+TARGET_ENV = {"race": {"TSAN_OPTIONS": "suppressions=%s exitcode=66 halt_on_error=0 report_signal_unsafe=0 report_thread_leaks=0 history_size=4" % os.path.join(VERIF, "support", "tsan.supp")},
+              "hyg": {"ASAN_OPTIONS": ENV_BASE["ASAN_OPTIONS"].replace("detect_leaks=0", "detect_leaks=1:leak_check_at_exit=0")}}
 
 
 def env_for(exe):
@@ -177,6 +186,15 @@ def parse_res(out):
 def crash_tag(err):
     """Derive a stable tag from sanitizer output: kind + first library frame."""
     kind = None
+    m = re.search(r"WARNING: ThreadSanitizer: ([\w -]+?) \(pid", err)
+    if m:
+        kind = "tsan." + m.group(1).strip().replace(" ", "-")
+        g = re.search(r"Location is global '(\w+)'", err)
+        fr = None
+        for fm in re.finditer(r"#\d+ (\w+) (\S+)", err):
+            if "/src/" in fm.group(2) and "/harness/" not in fm.group(2):
+                fr = fm.group(1); break
+        return kind + ("@" + fr if fr else "") + (":" + g.group(1) if g else "")
     m = re.search(r"ERROR: AddressSanitizer: ([\w-]+)", err)
     if m:
         kind = "asan." + m.group(1)
